@@ -1108,3 +1108,29 @@ def check(case, ctx):
         _check_profile_part(case, ctx)
     else:
         raise AssertionError("unknown part %r" % part)
+
+
+# ----------------------------------------------------------------------------
+# every direct library call made by this check must leave the arrays handed
+# to it unchanged (core.GuardedCalls)
+# ----------------------------------------------------------------------------
+def _guard_targets():
+    from pyphysim.channels import fading, multiuser, singleuser
+    t = []
+    for cls in (fading.TdlChannel, singleuser.SuChannel,
+                singleuser.SuMimoChannel, multiuser.MuChannel,
+                multiuser.MuMimoChannel):
+        t += [(cls, n) for n in ("corrupt_data",
+                                 "corrupt_data_in_freq_domain",
+                                 "set_pathloss")]
+    t += [(fading.TdlChannelProfile, "__init__")]
+    return t
+
+
+_unguarded_check = check
+
+
+def check(case, ctx):  # noqa: F811
+    from ..core import GuardedCalls
+    with GuardedCalls(_guard_targets(), dict(part=case.get("part"))):
+        return _unguarded_check(case, ctx)
